@@ -190,6 +190,7 @@ class Exec:
         self.ghost = None
         self.assuming = 0
         self.path_end_hooks = []
+        self.forced = {}
 
     # ---- fresh symbols ----------------------------------------------------------------------------
     def _name(self, base):
@@ -325,6 +326,8 @@ class Exec:
         """non-deterministic choice among n alternatives (all explored)"""
         if n <= 1:
             return 0
+        if tag in self.forced:          # a unit split into sub-units by the value of an early choice
+            return self.forced[tag]
         idx = len(self.trace)
         if idx < len(self.prefix):
             choice = self.prefix[idx]
